@@ -1,4 +1,5 @@
 import ZipVerif.Lemmas.Text
+import ZipVerif.Model.Records
 /-
 C19 — Names and comments decode by the flagged encoding; raw bytes are kept.
 Property theorems only; helper lemmas are in `Lemmas/Text.lean`, the model in `Model/Text.lean`,
@@ -79,6 +80,23 @@ theorem name_raw_verbatim (flags : UInt16) (nameRaw commentRaw : Bytes) :
     ∃ f, centralNameFields flags nameRaw commentRaw = .ok f ∧ f.fileNameRaw = nameRaw := by
   rw [central_name_fields]
   cases isUtf8Flag flags <;> exact ⟨_, rfl, rfl⟩
+
+/-! ### Extra fields never touch the text fields -/
+
+/-- **No extra-field record changes the name, the raw name or the comment.**  `parse_extra_field` (its
+model `Model.Records.parseExtraField`, equal to the regenerated translation of the source by
+`Tie.Parsers`) runs AFTER the header parsers decoded the name by the flag; whatever the extra bytes are -
+ZIP64, AES, an Info-ZIP Unicode Path (0x7075) or Unicode Comment (0x6375) record with a matching CRC-32,
+anything else, well-formed or not, and whether the loop ends normally or in an error - the three text fields
+of the entry are the ones the flag-driven decoding produced.  (A reader that lets a 0x7075 record override
+the name is not this function: the tie obligation breaks, and the `text.name` correspondence - archives
+whose central and local extra fields carry valid 0x7075 / 0x6375 records - disagrees.) -/
+theorem extra_fields_keep_text (fuel : Nat) (f : Model.FileData) (extra : Bytes) :
+    (Model.parseExtraField fuel f extra).1.fileName = f.fileName ∧
+    (Model.parseExtraField fuel f extra).1.fileNameRaw = f.fileNameRaw ∧
+    (Model.parseExtraField fuel f extra).1.fileComment = f.fileComment := by
+  fun_induction Model.parseExtraField fuel f extra <;> (try simp_all +zetaDelta) <;>
+    (repeat' split) <;> simp_all
 
 /-! ### UTF-8: encode / lossy decode / strict decode -/
 
